@@ -20,6 +20,10 @@ NAMES = ['A', 'B', 'C', 'D', 'D0', 'Tz', 'D3', 'G', 'Pr', 'P', 'Pk', 'Pw', 'Mv',
          'CT', 'PrT', 'PT', 'PkT', 'MvT', 'RsT', 'RvT', 'BdT', 'R1T', 'R3T', 'R1iT', 'PlT', 'I2v', 'Iqu', 'Im',
          'H2', 'Hh', 'Hq', 'Hm', 'AB', 'Mc', 'McT', 'Mn',
          'Dl', 'DlI', 'Prl', 'PrlT', 'BDl', 'BRl', 'BCl', 'Il', 'Hl', 'Mp', 'Mq', 'Ma', 'Mb', 'Ob', 'ObT']
+# products of two in the quick tier: one or two representatives per class and per space
+PAIRS_QUICK = ['A', 'C', 'D', 'D0', 'Tz', 'G', 'GT', 'Pr', 'PrT', 'P', 'PT', 'Pk', 'PkT', 'Mv', 'MvT', 'Mvi', 'Rs', 'RsT', 'Rv', 'Rn', 'Bd',
+               'R1', 'R3', 'R1T', 'Hw', 'Pl', 'R1i', 'Hwi', 'Pli', 'AI', 'DI', 'I2v', 'Iqu', 'H2', 'Hq', 'Mc', 'McT', 'Ma', 'Mb', 'Mp', 'Mq',
+               'Dl', 'Prl', 'BDl', 'BRl', 'BCl', 'Hl', 'Ob']
 SOLO = ['Dq', 'DqI', 'Dh']       # extreme parameter values (tiny / huge diagonal entries): used alone only
 POOL_QUICK = ['A', 'D', 'AI', 'DI', 'I2v', 'H2', 'G', 'GT', 'Pr', 'R1', 'R1T', 'Hw', 'Pl', 'Tz', 'D0']
 POOL_THOROUGH = POOL_QUICK + ['B', 'C', 'PrT', 'P', 'R2', 'Mv', 'Rs', 'D3', 'Hh']
@@ -28,8 +32,11 @@ CFG = """INIT Init
 NEXT Next
 CONSTANTS
   Names = {names}
+  PairNames = {pairs}
   Solo = {solo}
   Pool = {pool}
+  PoolBig = {{"A", "D", "G", "GT", "R1", "D0"}}
+  First = {first}
   Templates = {{{tpl}}}
 INVARIANT TransposeIsAdjoint
 INVARIANT AsMatrixFaithful
@@ -47,13 +54,20 @@ CHECK_DEADLOCK FALSE
 def generate(tier: str, templates=None) -> fx.TlcResult:
     pool = POOL_QUICK if tier == 'quick' else POOL_THOROUGH
     tpls = templates or [1, 2, 3, 4, 5, 6, 7, 8, 9, 10, 11]
-    groups = [g for g in ([t for t in tpls if t in (1, 2, 5)], [t for t in tpls if t in (3, 4, 7)],
-                          [t for t in tpls if t == 6], [t for t in tpls if t in (8, 9)], [t for t in tpls if t in (10, 11)]) if g]
+    everything = sorted(set(NAMES) | set(SOLO) | set(pool))
+    fifths = [pool[i::5] for i in range(5)]
+    thirds = [pool[i::3] for i in range(3)]
+    # shards: (templates, atoms allowed in the first slot); the three-slot templates are split over the first slot
+    groups = [(g, f) for g, f in
+              [([x for x in tpls if x in (1, 2, 3, 4, 5, 7)], everything), ([x for x in tpls if x == 6], everything),
+               ([x for x in tpls if x == 10], everything), ([x for x in tpls if x == 11], everything)]
+              + [([x for x in tpls if x == 8], f) for f in fifths] + [([x for x in tpls if x == 9], f) for f in thirds] if g]
 
     def cfg(i: int) -> str:
-        return CFG.format(names=tla_set(NAMES), solo=tla_set(SOLO), pool=tla_set(pool), tpl=', '.join(map(str, groups[i])))
+        return CFG.format(names=tla_set(NAMES), pairs=tla_set(PAIRS_QUICK if tier == 'quick' else NAMES), solo=tla_set(SOLO),
+                          pool=tla_set(pool), first=tla_set(groups[i][1]), tpl=', '.join(map(str, groups[i][0])))
 
-    res = fx.run_tlc_sharded('MC_Terms', cfg, len(groups), workers=3, parallel=5)
+    res = fx.run_tlc_sharded('MC_Terms', cfg, len(groups), workers=2, parallel=12)
     if res.violated:
         raise fx.MachineryError(f'MC_Terms violates {res.violated}:\n' + res.stdout[-3000:])
     return res
